@@ -1,6 +1,6 @@
 (* Properties/C16.v — the ontology is a function of the facts, not of their order (C16) *)
-From Coq Require Import Relations.
-From HpoV Require Import Gen.Consts Model.Base Model.Group Model.Onto Model.Dump Run.World Run.Ser Run.C16 Proofs.C15P Proofs.ClosureP Proofs.LinkP.
+From Coq Require Import Relations Permutation.
+From HpoV Require Import Gen.Consts Model.Base Model.Group Model.Onto Model.Dump Run.World Run.Ser Run.C16 Proofs.C15P Proofs.ClosureP Proofs.LinkP Proofs.RecordsP Proofs.C16M Model.Script.
 
 Theorem C16_all_orders_same_observation : forall i o, spec_C16 i o = true ->
   forall a b, In a o -> In b o -> ser_res a = ser_res b.
@@ -26,6 +26,18 @@ Theorem C16_model_annotations_order_independent : forall k fuel facts a a', good
   forall id x, has k a' id x <-> has k a id x \/ exists d, In (x, d) facts /\ In id (ar_keys a) /\ reach a d id.
 Proof. exact link_all_membership. Qed.
 
+(* THE PROPERTY FOR ANY TWO BUILDER SCRIPTS: whatever calls they make, in whatever order, with whatever
+   failing calls — if the two finished ontologies agree on the direct facts (the is_a links, the record
+   ids of each kind, the direct terms of every record), then every term has in both the same
+   parents, children, ancestor cache, three annotation sets and information content *)
+Theorem C16_builder_scripts_order_independent : forall icf s1 s2 c1 c2 o1 o2 t1 t2,
+  run_script icf s1 = Ok (c1, Ok o1) -> run_script icf s2 = Ok (c2, Ok o2) -> same_facts o1 o2 ->
+  In t1 (ar_terms (o_arena o1)) -> In t2 (ar_terms (o_arena o2)) -> t_id t2 = t_id t1 ->
+  t_parents t2 = t_parents t1 /\ t_children t2 = t_children t1 /\ t_allp t2 = t_allp t1 /\
+  (forall k, t_annots k t2 = t_annots k t1) /\ t_ic t2 = t_ic t1.
+Proof. exact builder_scripts_order_independent. Qed.
+
 Print Assumptions C16_all_orders_same_observation.
 Print Assumptions C16_model_closure_order_independent.
 Print Assumptions C16_model_annotations_order_independent.
+Print Assumptions C16_builder_scripts_order_independent.
